@@ -159,7 +159,8 @@ def build_jobs(ctx, rng):
         for f in INDICES:
             p = {}
             if f == "evi":
-                p = {"c1": 6.0, "c2": 7.5, "soil_factor": 1.0, "gain": 2.5}
+                p = {"c1": rng.choice([6.0, 1.0, 0.0]), "c2": rng.choice([7.5, 1.0, 0.0]),
+                     "soil_factor": rng.choice([1.0, 0.5]), "gain": rng.choice([2.5, 1.0])}
             if f == "savi":
                 p = {"soil_factor": rng.choice([1.0, 0.5, 0.0, -0.5])}
             add(f, f, p, H, W, rng.choice(["float32", "float64", "uint8", "uint16", "int32"]), "float", independent=True)
@@ -168,9 +169,13 @@ def build_jobs(ctx, rng):
             geo="unit", independent=True)
         add("true_color", "true_color", {"nodata": rng.choice([0, 1, 3])}, H, W, rng.choice(["uint16", "uint8", "int32"]),
             "int", geo="unit", independent=True)
-        add("perlin", "perlin", {"freq": [1, 2], "seed": rng.randrange(100)}, H, W, "float32", "float")
-        add("generate_terrain", "generate_terrain", {"seed": rng.randrange(100), "zfactor": 4000}, H, W, "float32",
-            "float", geo="unit")
+        add("perlin", "perlin", {"freq": rng.choice([[1, 2], [3, 1], [2, 2]]), "seed": rng.randrange(100)}, H, W,
+            "float32", "float")
+        add("generate_terrain", "generate_terrain", {"seed": rng.randrange(100), "zfactor": rng.choice([4000, 100])},
+            H, W, "float32", "float", geo="unit")
+        add("generate_terrain", "generate_terrain",
+            {"seed": rng.randrange(100), "zfactor": 4000, "x_range": [0, 250], "y_range": [100, 300],
+             "full_extent": [0, 0, 500, 500]}, H, W, "float32", "float", geo="unit")
     # stress family: many blocks running concurrently under the threaded scheduler (shared scratch state shows
     # only when block tasks overlap in time): 288x288 rasters, 48x48 chunks, 7x7 / 5x5 kernels, 8-16 workers
     big = 7
